@@ -65,25 +65,38 @@ TB_DIFF = ['go-ethereum v1.12.0 core/vm and eth/tracers (the module /repo itself
 TB_M4 = ['tracers/native/call.go and call_flat.go are modelled by hand (Artela/Model/CallTracer.lean, logs not modelled); tied by feeding '
          'callback streams generated from the call/Aspect tree grammar to the real tracers and comparing GetResult()']
 
+TB_M10 = ['tracers/logger/access_list_tracer.go (NewAccessListTracer, CaptureState, the accumulator) is modelled by hand '
+          '(Artela/Model/AccessList.lean; Go maps as duplicate-free association lists, output sorted on both sides); tied by recording what the '
+          'real tracer is shown at each step of generated executions (opcode, executing contract, stack height, two top words) with random prior '
+          'lists naming the sender, the recipient, precompiles, strangers, with and without storage keys, and replaying the record in the model; '
+          'the same tracer is also run against go-ethereum v1.12.0\'s on the same executions, like the JSON logger, the mux and noop tracers']
+
+TB_M11 = ['vm/contracts.go bigModExp.RequiredGas and Run (MODEXP, 0x05) are modelled by hand (Artela/Model/Modexp.lean: math/big as Nat, Uint64() as '
+          'mod 2^64, getData from the interpreter model, big.Int.Exp as square-and-multiply proved equal to x^y mod m); tied by calling the '
+          'table entries of Byzantium/Istanbul/Berlin on structured inputs (edge operands 0/1/2/all-ones, truncated inputs, header-only inputs whose price '
+          'is near a multiple of 2^64) and comparing price and, up to a price of 3 000 000, output; the other standard precompiles are compared '
+          'with go-ethereum v1.12.0 only (price: S stdgas, result: S stdrun)',
+          'the allocation RightPadBytes makes for a huge length word is not modelled (the call is refused for want of gas before Run)']
+
 PROPS = {
     'C01': {
-        'modules': ['Artela.Props.C01', 'Artela.Proofs.GenFacts', 'Artela.Props.InterpJournal', 'Artela.Props.InterpTables'],
-        'runs': [{'layer': 'diff'}, {'layer': 'frame'}],
-        'trusted_base': TB_DIFF + TB_M5 + TB_GEN,
+        'modules': ['Artela.Props.C01', 'Artela.Proofs.GenFacts', 'Artela.Props.InterpJournal', 'Artela.Props.InterpTables', 'Artela.Props.Modexp'],
+        'runs': [{'layer': 'diff'}, {'layer': 'frame'}, {'layer': 'precompile'}],
+        'trusted_base': TB_DIFF + TB_M5 + TB_GEN + TB_M11,
         'assumptions': ['bytes 0xe0-0xe7 and calls to 0x64-0x66 are excluded (they are not standard); opcode NAMES of 0x5c-0x5e/0xb3/0xb4 differ (known finding D18)'],
         'partial': 'inherited instruction bodies are identity-checked and differentially executed, not modelled; the proved part is the frame-layer refinement (unbound join points and the tracer are invisible)',
     },
     'C02': {
-        'modules': ['Artela.Props.C01', 'Artela.Props.C06', 'Artela.Proofs.GenFacts', 'Artela.Props.InterpGas'],
+        'modules': ['Artela.Props.C01', 'Artela.Props.C06', 'Artela.Proofs.GenFacts', 'Artela.Props.InterpGas', 'Artela.Props.Modexp'],
         'runs': [{'layer': 'diff'}, {'layer': 'interp'}, {'layer': 'precompile'}],
-        'trusted_base': TB_DIFF + TB_M5 + TB_GEN + TB_M9,
+        'trusted_base': TB_DIFF + TB_M5 + TB_GEN + TB_M9 + TB_M11,
         'assumptions': ['gas schedule functions are inherited (identity table) and compared step by step, including a gas-limit sweep'],
         'partial': 'as C01',
     },
     'C18': {
-        'modules': ['Artela.Props.C18', 'Artela.Proofs.GenFacts'],
+        'modules': ['Artela.Props.C18', 'Artela.Proofs.GenFacts', 'Artela.Props.C18Acl'],
         'runs': [{'layer': 'diff'}, {'layer': 'calltracer'}, {'layer': 'frame'}],
-        'trusted_base': TB_DIFF + TB_M4 + TB_M5 + TB_GEN,
+        'trusted_base': TB_DIFF + TB_M4 + TB_M5 + TB_GEN + TB_M10,
         'assumptions': [],
         'partial': 'as C01; withLog log collection of the call tracer is compared with upstream but not modelled',
     },
@@ -154,9 +167,9 @@ PROPS = {
         'assumptions': ['the interpreter loop performs exactly stack check, dynamic gas, execute, pc++ for a table entry without memorySize (inherited, identical to upstream: generated identity table)'],
     },
     'C20': {
-        'modules': ['Artela.Props.C20', 'Artela.Proofs.GenFacts', 'Artela.Props.InterpHalts', 'Artela.Props.InterpWork', 'Artela.Props.InterpTables'],
+        'modules': ['Artela.Props.C20', 'Artela.Proofs.GenFacts', 'Artela.Props.InterpHalts', 'Artela.Props.InterpWork', 'Artela.Props.InterpTables', 'Artela.Props.Modexp'],
         'runs': [{'layer': 'journal'}, {'layer': 'precompile'}, {'layer': 'cancun'}, {'layer': 'interp'}],
-        'trusted_base': TB_M1 + TB_M2 + TB_GEN + TB_M9 + ['work is counted as 32 units per StateDB read + 1 per byte copied/allocated; the search uses the fixed multiple K=16 (go/layer_journal.go workK)'],
+        'trusted_base': TB_M1 + TB_M2 + TB_GEN + TB_M9 + TB_M11 + ['work is counted as 32 units per StateDB read + 1 per byte copied/allocated; the search uses the fixed multiple K=16 (go/layer_journal.go workK)'],
         'assumptions': ['standard instructions and precompiles 1-9: bounded by upstream gas schedule (identity-checked, not modelled)'],
         'partial': 'c20_full is FALSE for the current code (c20_witness_reference_unbounded); proved: c20_partial, c20_value_journal, c20_value_key_journals, c20_key_journal_partial, c20_reference_journal_partial. Known findings D5 (VRJNAL) and D7 (memory-keyed registrations).',
     },
